@@ -1,6 +1,6 @@
 (* Props/C02.v — every message is laid out on the wire exactly as the pinned protocol schema says. *)
 From FP.Props Require Import Common C03.
-From FP.Theory Require Import Uniform LRenderSound LParseSound.
+From FP.Theory Require Import Uniform LRenderSound LParseSound TableEquiv.
 From FP.Pinned Require Import Pinned.
 Import Coq.Strings.String.StringSyntax.
 Delimit Scope string_scope with string.
@@ -16,7 +16,7 @@ Definition layouts_match : bool :=
           (combine schemas pinned_layouts).
 Lemma H_pin_layouts : layouts_match = true.
 Proof. vm_compute. reflexivity. Qed.
-Lemma H_pin_tables : tables = pinned_tables.
+Lemma H_pin_tables : tables_equivb tables pinned_tables = true.
 Proof. vm_compute. reflexivity. Qed.
 Definition versions_match : bool :=
   forallb (fun '(pkg, ver) =>
